@@ -45,13 +45,13 @@ var signedEndpoints = []signedEndpoint{
 		return []interface{}{pool.UpdateRequest{PeerInfo: infos, BlockNumber: uint64(r.Intn(1000)), Peers: []string{"a"}[:r.Intn(2)]}}
 	}},
 	{"vipnode_peer", func(r *rand.Rand, id string) []interface{} {
-		return []interface{}{pool.PeerRequest{Num: 1 + r.Intn(3), Kind: vlib.Pick(r, "geth", "")}}
+		return []interface{}{pool.PeerRequest{Num: 2 + r.Intn(3), Kind: vlib.Pick(r, "geth", "")}}
 	}},
 	{"vipnode_host", func(r *rand.Rand, id string) []interface{} {
 		return []interface{}{pool.HostRequest{Kind: vlib.Pick(r, "geth", "parity"), Payout: vlib.Pick(r, "", "0xP"), NodeURI: "enode://" + id + "@203.0.113.6:30303"}}
 	}},
 	{"vipnode_client", func(r *rand.Rand, id string) []interface{} {
-		return []interface{}{pool.ClientRequest{Kind: vlib.Pick(r, "geth", ""), NumHosts: r.Intn(3)}}
+		return []interface{}{pool.ClientRequest{Kind: vlib.Pick(r, "geth", ""), NumHosts: 2 + r.Intn(3)}}
 	}},
 	{"pool_addNode", func(r *rand.Rand, id string) []interface{} {
 		return []interface{}{vlib.NewIdentity("c04host", r.Intn(2)).NodeID}
@@ -219,6 +219,16 @@ func buildAlterations(r *rand.Rand, key, other *vlib.Identity, method, identity 
 		otherIdentity = other.Wallet
 	}
 	alts = append(alts, alteration{Name: "identity:other", Params: mk(sig, otherIdentity, nonce, args)})
+	// the same key under another spelling of the identity (hex case): the signed text differs
+	if up := strings.ToUpper(identity); up != identity && len(identity) > 42 {
+		alts = append(alts, alteration{Name: "identity:uppercase", Params: mk(sig, up, nonce, args)})
+	}
+	if len(identity) <= 42 {
+		if lo := strings.ToLower(identity); lo != identity {
+			alts = append(alts, alteration{Name: "identity:lowercase", Params: mk(sig, lo, nonce, args)})
+		}
+		alts = append(alts, alteration{Name: "identity:0X-prefix", Params: mk(sig, "0X"+identity[2:], nonce, args)})
+	}
 	// wrong key over the right payload
 	alts = append(alts, alteration{Name: "key:other", Params: mk(vlib.RefSign(other.Key, method, identity, nonce, args...), identity, nonce, args)})
 	// nonce
@@ -283,7 +293,7 @@ func TestC04(t *testing.T) {
 		"for each of the 7 signed endpoints x identity style (node id / wallet address): a reference-signed fresh request must pass verification (and request.Sign must produce the same signature), then every single-component alteration (signature made for another method, other identity, other key, nonce+-1, each JSON leaf / struct field of the params, one bit in each of the 64 R||S bytes, malformed/empty/short/garbage/oversize signatures, swapped encoding) must be refused with a verification error and leave the pool digest unchanged; non-trivial = altered request differs from an accepted one in exactly one component; distinct = (endpoint, style, alteration)")
 	ev.Assume("the V byte of a node-style signature and 27/28 vs 0/1 are not covered by the signature scheme: only required not to crash")
 	ev.Assume("the legacy vipnode_update form (signature over {peers, block_number}) is accepted by design; its unsigned peers_info is a documented compatibility hole and is not asserted")
-	rounds := vlib.Scale(1, 12)
+	rounds := vlib.Scale(2, 12)
 	for round := 0; round < rounds; round++ {
 		for _, driver := range vlib.Drivers() {
 			for ei, ep := range signedEndpoints {
@@ -300,6 +310,10 @@ func TestC04(t *testing.T) {
 						t.Fatal(err)
 					}
 					w := lw.w
+					// the operator cap on hosts per request is applied after verification: it must not change what is verified
+					if (round+ei)%2 == 0 {
+						w.Pool.MaxRequestHosts = 1
+					}
 					key := vlib.NewIdentity("c04subject", round*20+ei)
 					other := vlib.NewIdentity("c04other", round*20+ei)
 					identity := key.NodeID
